@@ -155,9 +155,9 @@ let enumerate vs cs =
   end
 
 (* ---- instance reading *)
-type opk = OS | OF | OA of con | OD of int * q
+type opk = OS | OF | OA of con | OD of int * q | OW of int * q
 type real = { r_op : int; r_status : string; r_x : q array; r_act : bool array; r_uns : bool array }
-type inst = { id : int; vs : var array; cs : con array; ops : opk array; reals : real list }
+type inst = { id : int; vs : var array; cs : con array; ops : opk array; reals : real list; queries : int list }
 
 let split_ws s = List.filter (fun t -> t <> "") (String.split_on_char ' ' (String.trim s))
 let bools_of s = if s = "-" then [||] else Array.init (String.length s) (fun i -> s.[i] = '1')
@@ -165,12 +165,12 @@ let bools_of s = if s = "-" then [||] else Array.init (String.length s) (fun i -
 let read_instances ic : inst list =
   let out = ref [] in
   let cur = ref None in
-  let vs = ref [] and cs = ref [] and ops = ref [] and reals = ref [] in
+  let vs = ref [] and cs = ref [] and ops = ref [] and reals = ref [] and queries = ref [] in
   (try
     while true do
       let line = input_line ic in
       match split_ws line with
-      | "N" :: id :: _ -> cur := Some (int_of_string id); vs := []; cs := []; ops := []; reals := []
+      | "N" :: id :: _ -> cur := Some (int_of_string id); vs := []; cs := []; ops := []; reals := []; queries := []
       | ["v"; d; w; s] -> vs := { des = q_of_string d; wt = q_of_string w; scl = q_of_string s } :: !vs
       | ["c"; l; r; g; e] ->
           cs := { cl = nat_of_int (int_of_string l); cr = nat_of_int (int_of_string r); gap = q_of_string g; ceq = (e = "1") } :: !cs
@@ -179,6 +179,8 @@ let read_instances ic : inst list =
       | ["o"; "A"; l; r; g; e] ->
           ops := OA { cl = nat_of_int (int_of_string l); cr = nat_of_int (int_of_string r); gap = q_of_string g; ceq = (e = "1") } :: !ops
       | ["o"; "D"; i; d] -> ops := OD (int_of_string i, q_of_string d) :: !ops
+      | ["o"; "W"; i; w] -> ops := OW (int_of_string i, q_of_string w) :: !ops
+      | ["q"; k] -> queries := int_of_string k :: !queries     (* feasibility query: the real solver threw at op k *)
       | "r" :: k :: status :: rest ->
           let n = List.length !vs in
           let xs = Array.of_list (List.map q_of_string (List.filteri (fun i _ -> i < n) rest)) in
@@ -189,7 +191,7 @@ let read_instances ic : inst list =
       | ["E"] ->
           (match !cur with
            | Some id -> out := { id; vs = Array.of_list (List.rev !vs); cs = Array.of_list (List.rev !cs);
-                                 ops = Array.of_list (List.rev !ops); reals = List.rev !reals } :: !out
+                                 ops = Array.of_list (List.rev !ops); reals = List.rev !reals; queries = List.rev !queries } :: !out
            | None -> ());
           cur := None
       | [] -> ()
@@ -215,31 +217,40 @@ let () =
     (* --- model run; remember the constraint set and model state at every S/F op *)
     let s = ref (init (Array.to_list inst.vs) (Array.to_list inst.cs)) in
     let alive = ref true in
+    let weights_changed = ref false in
     let cs_at = Hashtbl.create 8 and vs_at = Hashtbl.create 8 and mact_at = Hashtbl.create 8 in
     let cur_cs = ref (Array.to_list inst.cs) and cur_vs = ref (Array.copy inst.vs) in
     Array.iteri (fun k o ->
       (match o with
        | OA c -> cur_cs := !cur_cs @ [c]
        | OD (i, d) -> let v = !cur_vs.(i) in let a = Array.copy !cur_vs in a.(i) <- { v with des = d }; cur_vs := a
+       | OW (i, w) -> let v = !cur_vs.(i) in let a = Array.copy !cur_vs in a.(i) <- { v with wt = w }; cur_vs := a
        | _ -> ());
       (match o with
        | OS | OF -> Hashtbl.replace cs_at k (Array.of_list !cur_cs); Hashtbl.replace vs_at k !cur_vs
        | _ -> ());
       if !alive then begin
-        let op = match o with OS -> Solve | OF -> Satisfy | OA c -> AddConstraint c | OD (i, d) -> SetDesired (nat_of_int i, d) in
+        let op = match o with OS -> Base Solve | OF -> Base Satisfy | OA c -> Base (AddConstraint c)
+                              | OD (i, d) -> Base (SetDesired (nat_of_int i, d)) | OW (i, w) -> SetWeight (nat_of_int i, w) in
+        (match o with OW _ -> weights_changed := true | _ -> ());
         (* the model run, with the proved invariants (VpscInvB.all_invb: book, act_inv, forest, trichotomy, block
-           statistics) evaluated on EVERY state visited while executing this op; line "i k ok nstates mask" *)
+           statistics) evaluated on EVERY state visited while executing this op; line "i k ok nstates mask".
+           From the first weight change on (op W, VpscModelW.v) the statistics part is weakened to its weight-independent
+           content (all_invb_w: A2 > 0, scale > 0, posn = (AD-AB)/A2): sums accumulated before the change are stale in
+           deleted blocks. *)
         (* the evaluation is quadratic in n per state: instances with more than 40 variables (the V-run set, n up to 300)
            are run with plain `step` and print no "i" line *)
         let check_inv = n <= 40 in
-        let (r, (inv_ok, nst)) = if check_inv then step_chk all_invb fuel !s op else (step fuel !s op, (true, O)) in
+        let inv_p = if !weights_changed then all_invb_w else all_invb in
+        let (r, (inv_ok, nst)) = if check_inv then step_w_chk inv_p fuel !s op else (step_w fuel !s op, (true, O)) in
         let mask = if inv_ok then 0 else begin
-          let bit p v = if fst (snd (step_chk p fuel !s op)) then 0 else v in
-          bit bookb 1 + bit actb 2 + bit forestb 4 + bit trichotomyb 8 + bit statsb 16 + bit stats_liveb 32 end in
+          let bit p v = if fst (snd (step_w_chk p fuel !s op)) then 0 else v in
+          bit bookb 1 + bit actb 2 + bit forestb 4 + bit trichotomyb 8 +
+          (if !weights_changed then bit stats_posb 16 else bit statsb 16 + bit stats_liveb 32) end in
         if check_inv then Printf.printf "i %d %d %d %d\n" k (if inv_ok then 1 else 0) (int_of_nat nst) mask;
         if check_inv && inst.id mod 16 = 0 then begin
           (* step_chk must compute what step computes (sampled: it doubles the cost) *)
-          let same = (match r, step fuel !s op with
+          let same = (match r, step_w fuel !s op with
             | Ok a, Ok b -> final_positions a = final_positions b && a.cact = b.cact && a.cuns = b.cuns && a.vblk = b.vblk && a.inactive = b.inactive
             | ThrowUnsat a, ThrowUnsat b -> a = b
             | OutOfFuel, OutOfFuel -> true
@@ -317,4 +328,13 @@ let () =
            | None -> Printf.printf "g %d noforest\n" k)
         end
       end) inst.reals;
+    (* feasibility of the system in force at an op where the real solver threw (static Solver: a throw is its report) *)
+    List.iter (fun k ->
+      match Hashtbl.find_opt cs_at k with
+      | Some cs ->
+          (match detect (nat_of_int n) (Array.to_list cs) with
+           | Potentials _ -> Printf.printf "d %d P\n" k
+           | PosCycle w -> Printf.printf "d %d C %d\n" k (List.length w)
+           | Unknown -> Printf.printf "d %d U\n" k)
+      | None -> ()) inst.queries;
     flush stdout) insts
